@@ -507,6 +507,10 @@ def call(dom, name, args, kw):
                     break
             order.insert(pos, i)
         return out(dom, ND((len(order),), order))
+    if name == "np.squeeze":
+        return out(dom, ND(tuple(k for k in nd.shape if k != 1), list(nd.flat)))
+    if name in ("np.ravel", "np.atleast_1d"):
+        return out(dom, ND((len(nd.flat),), list(nd.flat)))
     if name == "np.unique":
         # sorted distinct values (+ index of the first occurrence); ties decided by forking on equality
         if nd.ndim != 1:
